@@ -19,11 +19,52 @@
      wfi inputs n           := every input is one of the n input nodes
      kR s                   := is_canc (nodes (fw s)) (fR s)      (ConflatedContext's result is cancelled)
      hasR pc                := the result context exists at pc (context.go:51 has been executed)
-     lexlt / lexle          := strict / weak lexicographic order on nat * nat *)
+     lexlt / lexle          := strict / weak lexicographic order on nat * nat
+
+   TWO MODELS OF CANCELLATION.  Part I (theorems C16_chain_.., C16_combine_.., C16_conflated_..) is about the ATOMIC model above: one cancel
+   step marks all descendants and fires all their registrations.  The real package does less per step
+   (go1.23 context.go: cancelCtx.cancel sets err, closes done, then walks the children; afterFuncCtx.cancel does
+   once.Do(go f()); stop() does once.Do(stopped = true); for a parent that is not a std cancelCtx propagateCancel starts a
+   goroutine that cancels the child after <-parent.Done()).  So really (1) a parent can be observed cancelled while a
+   child is still live, (2) stop() can return true on a registration whose context is already cancelled, (3) callbacks
+   start at arbitrary later times, (4) children of non-std parents are cancelled by another goroutine, arbitrarily later.
+   The atomic invariants "a pending registration sits on a live node" and "parent cancelled => child cancelled" are then
+   false.  Part II (theorems C16_split_..) re-proves EVERY theorem of Part I for the SPLIT model (Model/ContextSplit.v), whose schedules have
+   labels  SCancel n (the owner of input n calls its CancelFunc: node n ALONE becomes cancelled), SPropg c (node c, whose
+   parent -- the second entry of its ancestor list -- is cancelled, becomes cancelled: the parent's child loop, or the
+   propagation goroutine), SFire r (registration r, Pending on a cancelled node, wins its once: Pending -> Run f),
+   SHook r (a step of a callback goroutine; its stop_k() moves k Pending -> Stopped and returns true WHATEVER the state of
+   k's node; its CancelFunc call marks one node), SMain/SWaiter/SUser (the library's own code is literally the code of the
+   atomic model -- chain_step .. LMain, combine_main, confl_main -- except that each CancelFunc call marks the result node
+   only).  A split state is quiescent when the function has returned and no SHook, SFire, SPropg (and waiter) step is
+   enabled.  No theorem of Part I fails in the split model; the statements are the same with `grun (s.._step ..)` for
+   `run (.._step ..)`, with two changes: (a) quiescence additionally means "every once decided, propagation complete";
+   (b) the two CombineContext theorems that relate the result to the PRIMARY's cancellation need the primary's node to be
+   a well-formed forest node (its ancestor list starts with itself, as build_env / w_child construct them):
+   `Proofs.ContextSplitCombine.HdP primary ns`.  Part III: quiescence is reached, in both models.
+
+   WHICH INPUT CONTEXTS ARE COVERED.  An input context is a node with one monotone bit ("Done is closed / Err() != nil"),
+   fixed values, and a parent.  The split theorems quantify over every schedule, so they cover every context.Context
+   implementation that obeys the documented Context contract (Done always returns the same channel, closed at most once
+   and never reopened; Err() is nil before Done is closed and non-nil after; Value is stable): std cancelCtx/timerCtx/
+   valueCtx/withoutCancelCtx chains (children cancelled inside the parent's cancel = SPropg steps taken at once) AND
+   custom types, for which the std package propagates by a goroutine (WithCancel(custom) / AfterFunc(custom, f): the child
+   is cancelled / f is started some time after custom.Done() is closed = a later SPropg / SFire step; theorems
+   C16_split_propagation_can_be_delayed and C16_split_once_can_be_delayed say such a step stays enabled until it is
+   taken).  An input that is cancelled through its own parent is an SPropg step or, equally, an SCancel step of that
+   input (the schedule is universally quantified, related inputs need no special treatment).  NOT covered: Context
+   implementations that violate the contract (Err() != nil while Done() is still open, or the converse; Done() returning
+   different channels), and implementations with an `AfterFunc(func()) func() bool` method of their own (the std package
+   delegates registration to that method; whatever it does is outside the model).  The atomic theorems of Part I cover
+   only executions in which each cancel's cascade is not interleaved with other steps. *)
 From Coq Require Import List Arith Bool.
-From BB.Model Require Import Context.
-From BB.Proofs Require Context.
+From BB.Model Require Import Context ContextSplit.
+From BB.Proofs Require Context ContextSplit ContextSplitCombine ContextSplitConfl ContextMore.
 Import ListNotations.
+
+(* ================================================================================================================ *)
+(* PART I: the atomic model                                                                                         *)
+(* ================================================================================================================ *)
 
 (* ---------------------------------------------------------------------------------------------------------------- *)
 (* ChainAfterFunc                                                                                                   *)
@@ -267,3 +308,415 @@ Example ex_conflated_user_cancel_releases_waiter :
   Proofs.Context.kR s1 = true /\ confl_quiescent s1 = true /\ fwait s1 = WExit /\
   map rst (regs (fw s1)) = [Stopped; Done; Stopped; Done].
 Proof. exact Proofs.Context.confl_user_cancel_releases_waiter. Qed.
+
+(* ================================================================================================================ *)
+(* PART II: the split model (non-atomic cancellation): every theorem of Part I again                                *)
+(* ================================================================================================================ *)
+
+(* ---------------------------------------------------------------------------------------------------------------- *)
+(* ChainAfterFunc                                                                                                   *)
+(* ---------------------------------------------------------------------------------------------------------------- *)
+
+(* never twice, under every split schedule *)
+Theorem C16_split_chain_never_twice : forall (cx other nenv : nat) (ns : list node) (sched : list slbl),
+  calls (cw (grun (schain_step true cx other nenv) (chain_init ns) sched)) <= 1.
+Proof. exact Proofs.ContextSplit.schain_never_twice. Qed.
+Print Assumptions C16_split_chain_never_twice.
+
+(* never if neither context is cancelled *)
+Theorem C16_split_chain_never_if_neither : forall (cx other nenv : nat) (ns : list node) (sched : list slbl),
+  let s := grun (schain_step true cx other nenv) (chain_init ns) sched in
+  calls (cw s) <> 0 -> is_canc (nodes (cw s)) cx = true \/ is_canc (nodes (cw s)) other = true.
+Proof. exact Proofs.ContextSplit.schain_never_if_neither. Qed.
+Print Assumptions C16_split_chain_never_if_neither.
+
+(* exactly once if either is ever cancelled: every quiescent state (returned, no callback goroutine left, no once
+   undecided on a cancelled context, propagation complete) in which ctx or other is cancelled has calls = 1 *)
+Theorem C16_split_chain_exactly_once : forall (cx other nenv : nat) (ns : list node) (sched : list slbl),
+  let s := grun (schain_step true cx other nenv) (chain_init ns) sched in
+  schain_quiescent s = true ->
+  is_canc (nodes (cw s)) cx = true \/ is_canc (nodes (cw s)) other = true ->
+  calls (cw s) = 1.
+Proof. exact Proofs.ContextSplit.schain_exactly_once. Qed.
+Print Assumptions C16_split_chain_exactly_once.
+
+(* resource cleanup hinges on ctx *)
+Theorem C16_split_chain_registrations_final : forall (cx other nenv : nat) (ns : list node) (sched : list slbl),
+  let s := grun (schain_step true cx other nenv) (chain_init ns) sched in
+  schain_quiescent s = true -> is_canc (nodes (cw s)) cx = true ->
+  forall i x, nth_error (regs (cw s)) i = Some x -> rst x = Stopped \/ rst x = Done.
+Proof. exact Proofs.ContextSplit.schain_registrations_final. Qed.
+Print Assumptions C16_split_chain_registrations_final.
+
+(* progress: every internal step (main, callback goroutine, once, propagation) strictly decreases
+   (steps left in ChainAfterFunc, work left in goroutines + undecided onces + live nodes); environment steps never increase it *)
+Theorem C16_split_chain_progress : forall consult cx other nenv s l s',
+  schain_step consult cx other nenv s l = Some s' ->
+  match l with
+  | SCancel _ | SUser => Proofs.Context.lexle (Proofs.ContextSplit.schain_mu s') (Proofs.ContextSplit.schain_mu s)
+  | _ => Proofs.Context.lexlt (Proofs.ContextSplit.schain_mu s') (Proofs.ContextSplit.schain_mu s)
+  end.
+Proof. exact Proofs.ContextSplit.schain_progress. Qed.
+Print Assumptions C16_split_chain_progress.
+
+(* sensitivity *)
+Theorem C16_split_chain_noconsult_refuted :
+  exists ns sched, calls (cw (grun (schain_step false 0 1 2) (chain_init ns) sched)) = 2.
+Proof. exact Proofs.ContextSplit.schain_noconsult_refuted. Qed.
+Print Assumptions C16_split_chain_noconsult_refuted.
+
+(* ---------------------------------------------------------------------------------------------------------------- *)
+(* CombineContext                                                                                                   *)
+(* ---------------------------------------------------------------------------------------------------------------- *)
+
+(* only if: whenever the returned context is cancelled, the primary or some non-nil other is (itself: a cancelled
+   grand-parent of the primary that has not reached the primary yet does not cancel the result either) *)
+Theorem C16_split_combine_cancelled_only_if : forall (primary : option nat) (others : list (option nat)) (ns : list node) (sched : list slbl),
+  Proofs.Context.wfc primary others (length ns) -> Proofs.ContextSplitCombine.HdP primary ns ->
+  let s := grun (scombine_step true primary others (length ns)) (combine_init ns) sched in
+  forall r, combine_ret s = Some r -> is_canc (nodes (bw s)) r = true ->
+  Proofs.Context.src primary others (nodes (bw s)).
+Proof. exact Proofs.ContextSplitCombine.scombine_cancelled_only_if. Qed.
+Print Assumptions C16_split_combine_cancelled_only_if.
+
+(* exactly when, at quiescence *)
+Theorem C16_split_combine_cancelled_iff_quiescent : forall (primary : option nat) (others : list (option nat)) (ns : list node) (sched : list slbl),
+  Proofs.Context.wfc primary others (length ns) -> Proofs.ContextSplitCombine.HdP primary ns ->
+  let s := grun (scombine_step true primary others (length ns)) (combine_init ns) sched in
+  scombine_quiescent s = true ->
+  exists r, combine_ret s = Some r /\
+            (is_canc (nodes (bw s)) r = true <-> Proofs.Context.src primary others (nodes (bw s))).
+Proof. exact Proofs.ContextSplitCombine.scombine_quiescent_iff. Qed.
+Print Assumptions C16_split_combine_cancelled_iff_quiescent.
+
+(* already cancelled if any input already is, at the moment of return *)
+Theorem C16_split_combine_already_cancelled : forall (primary : option nat) (others : list (option nat)) (ns : list node) (sched : list slbl),
+  Proofs.Context.wfc primary others (length ns) ->
+  Proofs.Context.src primary others ns ->
+  let s := grun (scombine_step true primary others (length ns)) (combine_init ns) sched in
+  forall r, combine_ret s = Some r -> is_canc (nodes (bw s)) r = true.
+Proof. exact Proofs.ContextSplitCombine.scombine_already_cancelled. Qed.
+Print Assumptions C16_split_combine_already_cancelled.
+
+(* carries the primary's values *)
+Theorem C16_split_combine_values : forall (primary : option nat) (others : list (option nat)) (ns : list node) (sched : list slbl),
+  Proofs.Context.wfc primary others (length ns) ->
+  let s := grun (scombine_step true primary others (length ns)) (combine_init ns) sched in
+  forall r, combine_ret s = Some r ->
+  vals_of (nodes (bw s)) r = match primary with Some p => vals_of ns p | None => [] end.
+Proof. exact Proofs.ContextSplitCombine.scombine_values. Qed.
+Print Assumptions C16_split_combine_values.
+
+(* no leak: once the result is cancelled and everything has run, no registration is left pending -- also those on
+   other contexts that were cancelled but had not won their once when they were stopped *)
+Theorem C16_split_combine_no_leak : forall (primary : option nat) (others : list (option nat)) (ns : list node) (sched : list slbl),
+  Proofs.Context.wfc primary others (length ns) ->
+  let s := grun (scombine_step true primary others (length ns)) (combine_init ns) sched in
+  scombine_quiescent s = true ->
+  forall r, combine_ret s = Some r -> is_canc (nodes (bw s)) r = true ->
+  forall k x, nth_error (regs (bw s)) k = Some x -> rst x = Stopped \/ rst x = Done.
+Proof. exact Proofs.ContextSplitCombine.scombine_no_leak. Qed.
+Print Assumptions C16_split_combine_no_leak.
+
+Theorem C16_split_combine_progress : forall regstop primary others nenv s l s',
+  scombine_step regstop primary others nenv s l = Some s' ->
+  match l with
+  | SCancel _ | SUser => Proofs.Context.lexle (Proofs.ContextSplitCombine.scombine_mu (length others) s') (Proofs.ContextSplitCombine.scombine_mu (length others) s)
+  | _ => Proofs.Context.lexlt (Proofs.ContextSplitCombine.scombine_mu (length others) s') (Proofs.ContextSplitCombine.scombine_mu (length others) s)
+  end.
+Proof. exact Proofs.ContextSplitCombine.scombine_progress. Qed.
+Print Assumptions C16_split_combine_progress.
+
+Theorem C16_split_combine_nostop_refuted :
+  exists ns sched,
+    let s := grun (scombine_step false (Some 0) [Some 1] 2) (combine_init ns) sched in
+    scombine_quiescent s = true /\ combine_ret s = Some 2 /\ is_canc (nodes (bw s)) 2 = true /\
+    exists x, nth_error (regs (bw s)) 0 = Some x /\ rst x = Pending.
+Proof. exact Proofs.ContextSplitCombine.scombine_nostop_refuted. Qed.
+Print Assumptions C16_split_combine_nostop_refuted.
+
+(* ---------------------------------------------------------------------------------------------------------------- *)
+(* ConflatedContext                                                                                                 *)
+(* ---------------------------------------------------------------------------------------------------------------- *)
+
+(* stays live while at least one input is live *)
+Theorem C16_split_conflated_live_while_any_live : forall (ns0 : list node) (inputs : list nat) (sched : list slbl),
+  Proofs.Context.wfi inputs (length ns0) ->
+  let s := grun (sconfl_step true true inputs (length ns0)) (confl_init ns0) sched in
+  Proofs.Context.hasR (fpcv s) = true -> Proofs.Context.kR s = true ->
+  fpcv s = FRet /\ (fucancel s = true \/ forall x, In x inputs -> is_canc (nodes (fw s)) x = true).
+Proof. exact Proofs.ContextSplitConfl.sconfl_live_while_any_live. Qed.
+Print Assumptions C16_split_conflated_live_while_any_live.
+
+(* cancelled once all inputs are cancelled or cancel() is called, at quiescence *)
+Theorem C16_split_conflated_cancelled_when_all_dead : forall (ns0 : list node) (inputs : list nat) (sched : list slbl),
+  Proofs.Context.wfi inputs (length ns0) ->
+  let s := grun (sconfl_step true true inputs (length ns0)) (confl_init ns0) sched in
+  sconfl_quiescent s = true ->
+  (fucancel s = true \/ forall x, In x inputs -> is_canc (nodes (fw s)) x = true) ->
+  Proofs.Context.kR s = true.
+Proof. exact Proofs.ContextSplitConfl.sconfl_cancelled_when_all_dead. Qed.
+Print Assumptions C16_split_conflated_cancelled_when_all_dead.
+
+(* the waiter goroutine exits *)
+Theorem C16_split_conflated_waiter_exits : forall (ns0 : list node) (inputs : list nat) (sched : list slbl),
+  Proofs.Context.wfi inputs (length ns0) ->
+  let s := grun (sconfl_step true true inputs (length ns0)) (confl_init ns0) sched in
+  sconfl_quiescent s = true -> Proofs.Context.kR s = true ->
+  (fok s = true /\ fwait s = WExit) \/ (fok s = false /\ fwait s = WNone).
+Proof. exact Proofs.ContextSplitConfl.sconfl_waiter_exits. Qed.
+Print Assumptions C16_split_conflated_waiter_exits.
+
+(* the WaitGroup counter never goes negative: also when stop() wins on an already cancelled input *)
+Theorem C16_split_conflated_wg_never_negative : forall (ns0 : list node) (inputs : list nat) (sched : list slbl),
+  Proofs.Context.wfi inputs (length ns0) ->
+  wgneg (fw (grun (sconfl_step true true inputs (length ns0)) (confl_init ns0) sched)) = false.
+Proof. exact Proofs.ContextSplitConfl.sconfl_wg_never_negative. Qed.
+Print Assumptions C16_split_conflated_wg_never_negative.
+
+(* carries only the first input's values *)
+Theorem C16_split_conflated_values : forall (ns0 : list node) (inputs : list nat) (sched : list slbl),
+  Proofs.Context.wfi inputs (length ns0) ->
+  let s := grun (sconfl_step true true inputs (length ns0)) (confl_init ns0) sched in
+  fpcv s = FRet -> forall c0, hd_error inputs = Some c0 -> vals_of (nodes (fw s)) (fR s) = vals_of ns0 c0.
+Proof. exact Proofs.ContextSplitConfl.sconfl_values. Qed.
+Print Assumptions C16_split_conflated_values.
+
+Theorem C16_split_conflated_progress : forall detach consult inputs nenv s l s',
+  sconfl_step detach consult inputs nenv s l = Some s' ->
+  match l with
+  | SCancel _ | SUser => Proofs.Context.lexle (Proofs.ContextSplitConfl.sconfl_mu (length inputs) s') (Proofs.ContextSplitConfl.sconfl_mu (length inputs) s)
+  | _ => Proofs.Context.lexlt (Proofs.ContextSplitConfl.sconfl_mu (length inputs) s') (Proofs.ContextSplitConfl.sconfl_mu (length inputs) s)
+  end.
+Proof. exact Proofs.ContextSplitConfl.sconfl_progress. Qed.
+Print Assumptions C16_split_conflated_progress.
+
+Theorem C16_split_conflated_nodetach_refuted :
+  exists sched,
+    let s := grun (sconfl_step false true [0; 1] 2) (confl_init Proofs.Context.two_roots) sched in
+    fpcv s = FRet /\ Proofs.Context.kR s = true /\ fucancel s = false /\ In 1 (flives s) /\
+    is_canc (nodes (fw s)) 1 = false.
+Proof. exact Proofs.ContextSplitConfl.sconfl_nodetach_refuted. Qed.
+Print Assumptions C16_split_conflated_nodetach_refuted.
+
+Theorem C16_split_conflated_noconsult_refuted :
+  exists sched, wgneg (fw (grun (sconfl_step true false [0] 2) (confl_init Proofs.Context.two_roots) sched)) = true.
+Proof. exact Proofs.ContextSplitConfl.sconfl_noconsult_refuted. Qed.
+Print Assumptions C16_split_conflated_noconsult_refuted.
+
+(* ---------------------------------------------------------------------------------------------------------------- *)
+(* delayed work (covers the goroutine-based propagation of the std package for non-std parent contexts)             *)
+(* ---------------------------------------------------------------------------------------------------------------- *)
+
+(* a propagation that is due stays due, whatever else happens to the forest (marks, new nodes), until node c is cancelled *)
+Theorem C16_split_propagation_can_be_delayed : forall (ns ns' : list node) (c : nat),
+  Proofs.ContextSplit.sevol ns ns' -> prop_enabled ns c = true -> prop_enabled ns' c = true \/ is_canc ns' c = true.
+Proof. exact Proofs.ContextMore.prop_persistent. Qed.
+Print Assumptions C16_split_propagation_can_be_delayed.
+
+(* a registration that can win its once keeps that possibility across every system step until it fires or is stopped *)
+Theorem C16_split_once_can_be_delayed : forall (nenv : nat) (w : world) (l : slbl) (w' : world) (r : nat) (x : reg),
+  s_sys nenv w l = Some w' -> nth_error (regs w) r = Some x -> fire_enabled (nodes w) x = true ->
+  exists x', nth_error (regs w') r = Some x' /\ rnode x' = rnode x /\
+             (fire_enabled (nodes w') x' = true \/ rst x' = Run (rfn x) \/ rst x' = Stopped).
+Proof. exact Proofs.ContextMore.fire_persistent. Qed.
+Print Assumptions C16_split_once_can_be_delayed.
+
+(* ================================================================================================================ *)
+(* PART III: quiescence is reached.  The liveness halves above are stated at quiescent states; here: (a) no infinite   *)
+(* run of internal steps exists, from any state; (b) a reachable state without an enabled internal step is quiescent;  *)
+(* (c) hence settling (running the first enabled internal label, repeatedly) reaches a quiescent state after finitely  *)
+(* many steps, from every reachable state; (d) a quiescent state has no internal step.  The only other stuck state is  *)
+(* the panic of ConflatedContext() with no inputs, which is reached exactly when inputs = [].                          *)
+(* ================================================================================================================ *)
+
+(* ----- split model ----- *)
+Theorem C16_split_chain_internal_runs_finite : forall consult cx other nenv s,
+  Acc (Proofs.ContextMore.int_rel (schain_step consult cx other nenv) is_internal) s.
+Proof. exact Proofs.ContextMore.schain_internal_terminates. Qed.
+Print Assumptions C16_split_chain_internal_runs_finite.
+
+Theorem C16_split_chain_stuck_is_quiescent : forall consult cx other nenv ns sched,
+  let s := grun (schain_step consult cx other nenv) (chain_init ns) sched in
+  (forall l, is_internal l = true -> schain_step consult cx other nenv s l = None) -> schain_quiescent s = true.
+Proof. exact Proofs.ContextMore.schain_stuck_is_quiescent. Qed.
+Print Assumptions C16_split_chain_stuck_is_quiescent.
+
+Theorem C16_split_chain_quiescence_reached : forall consult cx other nenv ns sched,
+  let s := grun (schain_step consult cx other nenv) (chain_init ns) sched in
+  exists fuel, schain_quiescent (schain_settle consult cx other nenv fuel s) = true.
+Proof. exact Proofs.ContextSplit.schain_quiescence_reached. Qed.
+Print Assumptions C16_split_chain_quiescence_reached.
+
+Theorem C16_split_chain_quiescent_is_stuck : forall consult cx other nenv s l,
+  schain_quiescent s = true -> is_internal l = true -> schain_step consult cx other nenv s l = None.
+Proof. exact Proofs.ContextSplit.schain_quiescent_stuck. Qed.
+Print Assumptions C16_split_chain_quiescent_is_stuck.
+
+Theorem C16_split_combine_internal_runs_finite : forall regstop primary others nenv s,
+  Acc (Proofs.ContextMore.int_rel (scombine_step regstop primary others nenv) is_internal) s.
+Proof. exact Proofs.ContextMore.scombine_internal_terminates. Qed.
+Print Assumptions C16_split_combine_internal_runs_finite.
+
+(* CombineContext: from EVERY state, reachable or not *)
+Theorem C16_split_combine_stuck_is_quiescent : forall regstop primary others nenv s,
+  (forall l, is_internal l = true -> scombine_step regstop primary others nenv s l = None) -> scombine_quiescent s = true.
+Proof. exact Proofs.ContextMore.scombine_stuck_is_quiescent. Qed.
+Print Assumptions C16_split_combine_stuck_is_quiescent.
+
+Theorem C16_split_combine_quiescence_reached : forall regstop primary others nenv s,
+  exists fuel, scombine_quiescent (scombine_settle regstop primary others nenv fuel s) = true.
+Proof. exact Proofs.ContextSplitCombine.scombine_quiescence_reached. Qed.
+Print Assumptions C16_split_combine_quiescence_reached.
+
+Theorem C16_split_combine_quiescent_is_stuck : forall regstop primary others nenv s l,
+  scombine_quiescent s = true -> is_internal l = true -> scombine_step regstop primary others nenv s l = None.
+Proof. exact Proofs.ContextSplitCombine.scombine_quiescent_stuck. Qed.
+Print Assumptions C16_split_combine_quiescent_is_stuck.
+
+Theorem C16_split_conflated_internal_runs_finite : forall detach consult inputs nenv s,
+  Acc (Proofs.ContextMore.int_rel (sconfl_step detach consult inputs nenv) is_internal) s.
+Proof. exact Proofs.ContextMore.sconfl_internal_terminates. Qed.
+Print Assumptions C16_split_conflated_internal_runs_finite.
+
+Theorem C16_split_conflated_stuck_is_quiescent : forall detach consult inputs nenv ns0 sched,
+  let s := grun (sconfl_step detach consult inputs nenv) (confl_init ns0) sched in
+  (forall l, is_internal l = true -> sconfl_step detach consult inputs nenv s l = None) ->
+  sconfl_quiescent s = true \/ (sconfl_panicked s = true /\ inputs = []).
+Proof. exact Proofs.ContextMore.sconfl_stuck_is_quiescent. Qed.
+Print Assumptions C16_split_conflated_stuck_is_quiescent.
+
+(* the inputs = [] corner: the only final state that is not quiescent is the immediate panic, and only without inputs *)
+Theorem C16_split_conflated_quiescence_reached : forall detach consult inputs nenv ns0 sched,
+  let s := grun (sconfl_step detach consult inputs nenv) (confl_init ns0) sched in
+  exists fuel, let s' := sconfl_settle detach consult inputs nenv fuel s in
+               sconfl_quiescent s' = true \/ (sconfl_panicked s' = true /\ inputs = []).
+Proof. exact Proofs.ContextSplitConfl.sconfl_quiescence_reached. Qed.
+Print Assumptions C16_split_conflated_quiescence_reached.
+
+Theorem C16_split_conflated_panics_only_without_inputs : forall detach consult nenv ns0 inputs sched,
+  let s := grun (sconfl_step detach consult inputs nenv) (confl_init ns0) sched in
+  sconfl_panicked s = true -> inputs = [].
+Proof. exact Proofs.ContextSplitConfl.sconfl_panics_iff_no_inputs. Qed.
+Print Assumptions C16_split_conflated_panics_only_without_inputs.
+
+Theorem C16_split_conflated_quiescent_is_stuck : forall detach consult inputs nenv s l,
+  sconfl_quiescent s = true -> is_internal l = true -> sconfl_step detach consult inputs nenv s l = None.
+Proof. exact Proofs.ContextSplitConfl.sconfl_quiescent_stuck. Qed.
+Print Assumptions C16_split_conflated_quiescent_is_stuck.
+
+(* ----- atomic model ----- *)
+Theorem C16_chain_internal_runs_finite : forall consult cx other nenv s,
+  Acc (Proofs.ContextMore.int_rel (chain_step consult cx other nenv) Proofs.ContextMore.lbl_internal) s.
+Proof. exact Proofs.ContextMore.chain_internal_terminates. Qed.
+Print Assumptions C16_chain_internal_runs_finite.
+
+Theorem C16_chain_quiescence_reached : forall consult cx other nenv ns sched,
+  let s := run (chain_step consult cx other nenv) (chain_init ns) sched in
+  exists fuel, chain_quiescent (chain_settle consult cx other nenv fuel s) = true.
+Proof. exact Proofs.ContextMore.chain_quiescence_reached. Qed.
+Print Assumptions C16_chain_quiescence_reached.
+
+Theorem C16_chain_quiescent_is_stuck : forall consult cx other nenv s l,
+  chain_quiescent s = true -> Proofs.ContextMore.lbl_internal l = true -> chain_step consult cx other nenv s l = None.
+Proof. exact Proofs.ContextMore.chain_quiescent_stuck. Qed.
+Print Assumptions C16_chain_quiescent_is_stuck.
+
+Theorem C16_combine_internal_runs_finite : forall regstop primary others nenv s,
+  Acc (Proofs.ContextMore.int_rel (combine_step regstop primary others nenv) Proofs.ContextMore.lbl_internal) s.
+Proof. exact Proofs.ContextMore.combine_internal_terminates. Qed.
+Print Assumptions C16_combine_internal_runs_finite.
+
+Theorem C16_combine_quiescence_reached : forall regstop primary others nenv s,
+  exists fuel, combine_quiescent (combine_settle regstop primary others nenv fuel s) = true.
+Proof. exact Proofs.ContextMore.combine_quiescence_reached. Qed.
+Print Assumptions C16_combine_quiescence_reached.
+
+Theorem C16_combine_quiescent_is_stuck : forall regstop primary others nenv s l,
+  combine_quiescent s = true -> Proofs.ContextMore.lbl_internal l = true -> combine_step regstop primary others nenv s l = None.
+Proof. exact Proofs.ContextMore.combine_quiescent_stuck. Qed.
+Print Assumptions C16_combine_quiescent_is_stuck.
+
+Theorem C16_conflated_internal_runs_finite : forall detach consult inputs nenv s,
+  Acc (Proofs.ContextMore.int_rel (confl_step detach consult inputs nenv) Proofs.ContextMore.lbl_internal) s.
+Proof. exact Proofs.ContextMore.confl_internal_terminates. Qed.
+Print Assumptions C16_conflated_internal_runs_finite.
+
+Theorem C16_conflated_quiescence_reached : forall detach consult inputs nenv ns0 sched,
+  let s := run (confl_step detach consult inputs nenv) (confl_init ns0) sched in
+  exists fuel, let s' := confl_settle detach consult inputs nenv fuel s in
+               confl_quiescent s' = true \/ (Proofs.ContextMore.confl_panicked s' = true /\ inputs = []).
+Proof. exact Proofs.ContextMore.confl_quiescence_reached. Qed.
+Print Assumptions C16_conflated_quiescence_reached.
+
+Theorem C16_conflated_quiescent_is_stuck : forall detach consult inputs nenv s l,
+  confl_quiescent s = true -> Proofs.ContextMore.lbl_internal l = true -> confl_step detach consult inputs nenv s l = None.
+Proof. exact Proofs.ContextMore.confl_quiescent_stuck. Qed.
+Print Assumptions C16_conflated_quiescent_is_stuck.
+
+(* ---------------------------------------------------------------------------------------------------------------- *)
+(* split model: the hypotheses are satisfiable and the behaviours that the atomic model cannot show do occur        *)
+(* ---------------------------------------------------------------------------------------------------------------- *)
+Example ex_split_HdP : Proofs.ContextSplitCombine.HdP (Some 0)
+  (build_env [ {| eparent := None; ekv := None |}; {| eparent := Some 0; ekv := None |} ] []).
+Proof. exact Proofs.ContextSplitCombine.HdP_example. Qed.
+
+(* stop() returns true on a registration whose context is already cancelled; f still runs exactly once *)
+Example ex_split_chain_stop_wins_on_cancelled_context :
+  let ns := build_env [ {| eparent := None; ekv := None |}; {| eparent := None; ekv := None |} ] [] in
+  let s1 := grun (schain_step true 0 1 2) (chain_init ns) [SMain; SMain; SCancel 1; SCancel 0; SFire 1; SHook 1] in
+  let s2 := grun (schain_step true 0 1 2) s1 [SHook 1; SFire 0] in
+  is_canc (nodes (cw s1)) 1 = true /\ map rst (regs (cw s1)) = [Stopped; Run (FAct ACall)] /\
+  schain_quiescent s2 = true /\ calls (cw s2) = 1.
+Proof. exact Proofs.ContextSplit.schain_stop_wins_on_cancelled_context. Qed.
+
+(* parent (ctx) observed cancelled, its hook has run f, child (other) still live *)
+Example ex_split_chain_parent_before_child :
+  let ns := build_env [ {| eparent := None; ekv := None |}; {| eparent := Some 0; ekv := None |} ] [] in
+  let s1 := grun (schain_step true 0 1 2) (chain_init ns) [SMain; SMain; SCancel 0; SFire 1; SHook 1; SHook 1] in
+  let s2 := grun (schain_step true 0 1 2) s1 [SPropg 1] in
+  is_canc (nodes (cw s1)) 0 = true /\ is_canc (nodes (cw s1)) 1 = false /\ calls (cw s1) = 1 /\
+  schain_quiescent s1 = false /\ schain_quiescent s2 = true /\ calls (cw s2) = 1.
+Proof. exact Proofs.ContextSplit.schain_parent_before_child. Qed.
+
+(* CombineContext: the primary is cancelled, the result not yet (e.g. a non-std primary: propagation goroutine) *)
+Example ex_split_combine_parent_before_child :
+  let ns := build_env [ {| eparent := None; ekv := None |}; {| eparent := None; ekv := None |} ] [] in
+  let step := scombine_step true (Some 0) [Some 1] 2 in
+  let s1 := grun step (combine_init ns) [SMain; SMain; SMain; SMain; SMain; SMain; SMain; SCancel 0] in
+  let s2 := scombine_settle true (Some 0) [Some 1] 2 50 s1 in
+  combine_ret s1 = Some 2 /\ is_canc (nodes (bw s1)) 0 = true /\ is_canc (nodes (bw s1)) 2 = false /\
+  scombine_quiescent s1 = false /\
+  scombine_quiescent s2 = true /\ is_canc (nodes (bw s2)) 2 = true /\ map rst (regs (bw s2)) = [Stopped; Done].
+Proof. exact Proofs.ContextSplitCombine.scombine_parent_before_child. Qed.
+
+Example ex_split_combine_stop_wins_on_cancelled_other :
+  let ns := build_env [ {| eparent := None; ekv := None |}; {| eparent := None; ekv := None |} ] [] in
+  let step := scombine_step true (Some 0) [Some 1] 2 in
+  let s := grun step (combine_init ns) [SMain; SMain; SMain; SMain; SMain; SMain; SMain; SCancel 0; SCancel 1; SPropg 2; SFire 1;
+                                        SHook 1; SHook 1] in
+  scombine_quiescent s = true /\ is_canc (nodes (bw s)) 1 = true /\ is_canc (nodes (bw s)) 2 = true /\
+  map rst (regs (bw s)) = [Stopped; Done].
+Proof. exact Proofs.ContextSplitCombine.scombine_stop_wins_on_cancelled_other. Qed.
+
+Example ex_split_conflated_stays_live_then_dies :
+  let step := sconfl_step true true [0; 1] 2 in
+  let s0 := sconfl_settle true true [0; 1] 2 60 (confl_init Proofs.Context.two_roots) in
+  let s1 := sconfl_settle true true [0; 1] 2 60 (grun step s0 [SCancel 0]) in
+  let s2 := sconfl_settle true true [0; 1] 2 60 (grun step s1 [SCancel 1]) in
+  sconfl_quiescent s0 = true /\ Proofs.Context.kR s0 = false /\ sconfl_quiescent s1 = true /\ Proofs.Context.kR s1 = false /\
+  sconfl_quiescent s2 = true /\ Proofs.Context.kR s2 = true /\ fwait s2 = WExit /\ wg (fw s2) = 0 /\
+  lookup (vals_of (nodes (fw s2)) (fR s2)) 1 = Some 10.
+Proof. exact Proofs.ContextSplitConfl.sconfl_stays_live_then_dies. Qed.
+
+(* cancel() while both inputs are cancelled but neither registration has fired: both stops win, the WaitGroup is
+   released by the primary-side hooks, exactly one Done per Add *)
+Example ex_split_conflated_user_cancel_stops_cancelled_inputs :
+  let step := sconfl_step true true [0; 1] 2 in
+  let s0 := sconfl_settle true true [0; 1] 2 60 (confl_init Proofs.Context.two_roots) in
+  let s1 := grun step s0 [SCancel 0; SCancel 1; SUser; SFire 1; SFire 3; SHook 1; SHook 3] in
+  let s2 := sconfl_settle true true [0; 1] 2 60 s1 in
+  map rst (regs (fw s1)) = [Stopped; Run (FAct AWgDone); Stopped; Run (FAct AWgDone)] /\
+  is_canc (nodes (fw s1)) 0 = true /\ is_canc (nodes (fw s1)) 1 = true /\
+  sconfl_quiescent s2 = true /\ Proofs.Context.kR s2 = true /\ fwait s2 = WExit /\ wg (fw s2) = 0 /\ wgneg (fw s2) = false.
+Proof. exact Proofs.ContextSplitConfl.sconfl_user_cancel_stops_cancelled_inputs. Qed.
